@@ -1,4 +1,4 @@
-import PepperProofs.ConstraintGenTotal
+import PepperProofs.ConstraintGenTotalT
 /-!
 # C15 — over-constrained specifications are reported, not passed on
 
@@ -92,10 +92,9 @@ theorem loaded_wellformed {stmts : List Stmt} {spec : Spec}
     (`link_realised`), then the abstract core (`core_partition`) picks a base per class and its complement on the
     partner class.
 
-    The hypotheses `hs`/`hb` say that the seeding itself raised nothing.  For the strand layout they are theorems
-    (`error_iff_unsat_strand`).  In the structure layout the seeding raises when a non-empty strand occurs in no
-    structure (`None + int`); that it raises in no other case is not a theorem here — it is observed on every
-    sampled document by the correspondence (the model's error class always equals the implementation's). -/
+    The hypotheses `hs`/`hb` say that the seeding itself raised nothing.  They are theorems for the strand layout
+    (`error_iff_unsat_strand`) and, when every non-empty strand occurs in some structure, for the structure layout
+    (`error_iff_unsat_struct`). -/
 theorem error_iff_unsat {mode : Layout} {stmts : List Stmt} {spec : Spec}
     (hload : Pil.load Generated.nupackTable stmts {} = .ok spec) {s : Seeds} {c : Cons}
     (hs : seeds mode spec = .ok s) (hb : build s = .ok c) :
@@ -118,6 +117,16 @@ theorem error_iff_unsat_strand {stmts : List Stmt} {spec : Spec}
     (hload : Pil.load Generated.nupackTable stmts {} = .ok spec) :
     getConstraints .strand spec = .error .overconstrained ↔ ¬ Satisfiable Generated.pilTable (Pil.denote spec) := by
   obtain ⟨s, c, hs, hb⟩ := seeding_total_strand (load_wf hload)
+  exact error_iff_unsat hload hs hb
+
+/-- **C15 for the structure layout**, for documents in which every non-empty strand occurs in some structure
+    (`Placed`; otherwise `get_index_strand` adds `None` to an integer): there too the seeding never raises
+    (`seeding_total_struct`) and the call fails with the `ValueError` of `propagate_templates` exactly when the
+    specification is unsatisfiable. -/
+theorem error_iff_unsat_struct {stmts : List Stmt} {spec : Spec}
+    (hload : Pil.load Generated.nupackTable stmts {} = .ok spec) (hp : Placed spec) :
+    getConstraints .struct spec = .error .overconstrained ↔ ¬ Satisfiable Generated.pilTable (Pil.denote spec) := by
+  obtain ⟨s, c, hs, hb⟩ := seeding_total_struct (load_wf hload) hp
   exact error_iff_unsat hload hs hb
 
 /-- In the strand layout the only outcomes are: arrays, the over-constrained error, or (a document without any
